@@ -9,7 +9,8 @@ Core Lean only.  Follows the source statement by statement; Python's partial ope
 fire become `crash AssertionError`.
 
 * `scanAll` stands for `_directive_re.finditer` plus the two `match.start() != last_pos` /
-  `last_pos != len(s)` tests.  The regex text is pinned (`Props.C11.regex_pin`).  Why a deterministic
+  `last_pos != len(s)` tests.  That it IS the first match of the live parse tree of the regex, and that the `finditer`
+  loop yields this segmentation, is proved in `Props.C11Tie` (`directive_regex`, `segmentation_is_finditer`).  Informally, why a deterministic
   scanner is the same as Python's backtracking matcher here: at a `%` every optional group is followed
   by something that starts with a character the group itself cannot contain or start with
   (`[0-9]+[$]`: the `$` must be there — without the index group nothing else can consume a `$`;
@@ -61,7 +62,7 @@ def Warn.name : Warn → String
 /-! ## `_directive_re` as a scanner -/
 
 /-- the text of `_directive_re` (compiled with `re.VERBOSE`) that the scanner below was written against;
-    `Props.C11.regex_pin` compares it with the live pattern on every run -/
+    (kept for the record; since `Props.C11Tie.directive_regex` the tie is to the live parse tree, not to this text) -/
 def pinnedDirectiveRe : String := "\n    (?P<literal> [^%]+ ) |\n    (\n        %\n        (?P<index> [0-9]+[$] )?\n        (?P<flags> [#0 +'I-]* )\n        (?:\n            (?P<width> [1-9][0-9]* ) |\n            (?P<varwidth> [*] ) (?P<varwidth_index> [0-9]+[$] )?\n        )?\n        (?:\n            [.]\n            (?:\n                (?P<precision> [0-9]* ) |\n                (?P<varprec> [*] ) (?P<varprec_index> [0-9]+[$] )?\n            )\n        )?\n        (?:\n            (?P<length>\n                hh? | ll? | [qjzZt] | L\n            )?\n            (?P<conversion>\n                [diouxXeEfFgGaAcsCSpnm%]\n            ) |\n            < (?: PRI (?P<c99conv>[diouxX]) (?P<c99len> (?:LEAST|FAST)?(?:8|16|32|64)|MAX|PTR) ) >\n        )\n    )\n"
 
 /-- `re.VERBOSE | re.UNICODE` -/
